@@ -14,8 +14,12 @@
   and `Model.SM2.signHashed` are the models of `GenerateKey` and `SignHashed` (executed against the Go
   code by the harness).  `Spec.SM2.candidates sc []` is the list of complete 32-byte strings the script
   delivers before its first failure or its end.  An `Outcome` is a value (`.ok`), a returned error
-  (`.err`: all results nil except the error) or a panic; so "`= .err`" says both "non-nil error" and
-  "no key / no signature".
+  (`.err`: a non-nil error is returned; the outcome carries no payload) or a panic.  In the Go code every
+  error path returns nil for the PUBLIC results (x, y of GenerateKey; r, s of the signers), so "`= .err`"
+  says "non-nil error and no public key / no signature".  It does NOT say that `priv` is nil: GenerateKey
+  allocates `priv = make([]byte, 32)` before the loop and its bare `return` hands that work buffer back with
+  the error (holding the last candidate read, possibly a rejected one or a partial read) — visible in the
+  harness only, not in these statements.
 
   The key-generation statements need `X.n = Spec.SM2.n` (or `CurveFacts X` where the scalar
   multiplication is reached); the reader statements need nothing.
